@@ -6,7 +6,7 @@ import BeffVerif.Lemmas.Sort
 `Props/C05.lean` proves the decision exact on type vectors without object / list part. This file carries it one level up:
 an object type whose declared properties are inhabited scalar types (no index signature), on the left of `extends`,
 against an object type without index signature on the right. For every context in which the two atoms are defined and the
-memo is empty, and every fuel ≥ 5, `is_subtype` answers, and says *yes* exactly when every exact value of the left type —
+memo holds no answer for this very question yet, and every fuel ≥ 5, `is_subtype` answers, and says *yes* exactly when every exact value of the left type —
 a value for every declared key within its type, nothing else — is a value of the right type under the structural reading
 (undeclared keys are free). That is reading S8 of the reference, now a theorem on this fragment instead of a sampled
 agreement.
@@ -514,12 +514,14 @@ theorem covered_iff (P B : MappingAtomic) (hP : ∀ p ∈ P.vs, Inh p.2) (hPi : 
 
 -- ---------- the theorem ----------
 /-- **Flat object types: assignability = inclusion.** `A`, `B` object types without index signature, the declared properties
-of `A` inhabited scalar types, those of `B` well-formed; `i ≠ j` their atoms in a context with an empty memo. For every fuel
+of `A` inhabited scalar types, those of `B` well-formed; `i ≠ j` their atoms in a context whose memo has no entry for the
+clause `A ∧ ¬B` yet (an empty memo in particular). For every fuel
 ≥ 5 `is_subtype` answers, and the answer is *yes* exactly when every exact value of `A` is a structural value of `B`. -/
 theorem flat_object_subtype_iff_inclusion (n i j : Nat) (A B : MappingAtomic) (c : Ctx)
     (hij : i ≠ j) (hAi : c.mappings[i]? = some (some A)) (hBj : c.mappings[j]? = some (some B))
     (hA : ∀ p ∈ A.vs, Good p.2 ∧ Inh p.2) (hAx : A.index = none)
-    (hB : ∀ q ∈ B.vs, WF q.2) (hBx : B.index = none) (hmemo : c.memoM = []) :
+    (hB : ∀ q ∈ B.vs, WF q.2) (hBx : B.index = none)
+    (hmemo : c.memoM.find? (fun p => p.1 == [⟨[⟨mappingKind, i⟩], [⟨mappingKind, j⟩]⟩]) = none) :
     ∃ r c', isSubtype (n + 5) (mappingFromIdx i) (mappingFromIdx j) c = some (r, c') ∧
       (r = true ↔ ∀ o, memExact A o → memOpen B o) := by
   obtain ⟨D, hdiff, hdnf⟩ := diff_mapping i j hij
@@ -573,7 +575,7 @@ theorem flat_object_subtype_iff_inclusion (n i j : Nat) (A B : MappingAtomic) (c
       posIntersection (n + 2 + 1) [⟨mappingKind, i⟩] c1 = some (some A', c1) := by
     intro c1 hc1
     exact pos_single (n + 2) ⟨mappingKind, i⟩ A A' c1 (by rw [hc1]; exact hAi) hI
-  have hmemo' : c.memoM.find? (fun p => p.1 == Dnf.ofBdd D) = none := by rw [hmemo]; rfl
+  have hmemo' : c.memoM.find? (fun p => p.1 == Dnf.ofBdd D) = none := by rw [hdnf]; exact hmemo
   obtain ⟨c', hme⟩ := mapping_single (n + 2) D ⟨mappingKind, i⟩ ⟨mappingKind, j⟩ A' B c r hdnf hmemo' hpos hBj hcheck
   refine ⟨r, c', ?_, ?_⟩
   · unfold isSubtype
